@@ -130,7 +130,7 @@ func Run(l *Loaded, cfg RunConfig) (res *RunResult) {
 	t0 := time.Now()
 	tb := NewTB()
 	if cfg.Solver == "" {
-		cfg.Solver = "z3"
+		cfg.Solver = "z3-new"
 	}
 	if cfg.QueryMs == 0 {
 		cfg.QueryMs = 120000
@@ -301,15 +301,30 @@ func (ex *Exec) discharge(res *RunResult, cfg RunConfig) {
 	if len(prep) == 0 {
 		return
 	}
-	// split variables for cube-and-conquer on hard queries: boolean nondets, select and schedule choices
-	var splitVars []*Term
+	// split variables for cube-and-conquer on hard queries: boolean inputs and integer inputs with a
+	// small declared range (operation selectors, schedule and select choices)
+	type splitVar struct {
+		v     *Term
+		cases []*Term
+	}
+	var splitVars []splitVar
 	for _, v := range tb.VarOrder {
-		if v.Sort.K == KBool {
-			splitVars = append(splitVars, v)
+		switch {
+		case v.Sort.K == KBool:
+			splitVars = append(splitVars, splitVar{v, []*Term{v, tb.Not(v)}})
+		case v.Sort.K == KInt && v.lo != nil && v.hi != nil:
+			span := new(big.Int).Sub(v.hi, v.lo)
+			if span.IsInt64() && span.Int64() <= 7 {
+				sv := splitVar{v: v}
+				for x := v.lo.Int64(); x <= v.hi.Int64(); x++ {
+					sv.cases = append(sv.cases, tb.Eq(v, tb.Int(x)))
+				}
+				splitVars = append(splitVars, sv)
+			}
 		}
 	}
-	if len(splitVars) > 5 {
-		splitVars = splitVars[:5]
+	if len(splitVars) > 6 {
+		splitVars = splitVars[:6]
 	}
 	firstMs := cfg.QueryMs
 	if len(splitVars) > 0 && cfg.SplitMs > 0 && cfg.SplitMs < cfg.QueryMs {
@@ -449,7 +464,7 @@ func (ex *Exec) discharge(res *RunResult, cfg RunConfig) {
 				terms := append(append(append([]*Term(nil), ex.assumes[:o.NAssume]...), j.extra...), j.cube...)
 				ms := cfg.QueryMs
 				canSplit := j.depth < len(splitVars)
-				if canSplit && j.depth == 0 {
+				if canSplit {
 					ms = firstMs
 				}
 				var results []Result
@@ -506,15 +521,15 @@ func (ex *Exec) discharge(res *RunResult, cfg RunConfig) {
 					break
 				}
 				if r == Unknown && canSplit {
-					// cube-and-conquer: split on the next boolean input
-					v := splitVars[j.depth]
+					// cube-and-conquer: split on the next small-domain input
+					sv := splitVars[j.depth]
 					j.agg.mu.Lock()
-					j.agg.pending += 2
+					j.agg.pending += len(sv.cases)
 					j.agg.mu.Unlock()
-					for _, lit := range []*Term{v, tb.Not(v)} {
+					for _, lit := range sv.cases {
 						enqueue(&dJob{p: j.p, kind: j.kind, extra: j.extra, cube: append(append([]*Term(nil), j.cube...), lit), agg: j.agg, depth: j.depth + 1})
 					}
-					finishOne(j, Unsat, nil) // this job is replaced by its two halves
+					finishOne(j, Unsat, nil) // this job is replaced by its cubes
 				} else {
 					finishOne(j, r, model)
 				}
